@@ -32,6 +32,7 @@ static std::map<int, std::string> g_fdpath;           // tracked descriptors -> 
 static std::map<std::string, long long> g_budget;     // remaining bytes the "disk" accepts per path (absent: unlimited)
 static std::vector<std::string> g_trace;
 static long g_ops = 0, g_crash_at = -1;
+static long g_writes = 0, g_fail_once = -1;     // FAILONCE k: the k-th data write is rejected once with ENOSPC
 static bool g_in_hook = false;
 
 static std::string rel(const char* p) {
@@ -83,6 +84,7 @@ extern "C" ssize_t write(int fd, const void* buf, size_t len) {
     auto it = g_fdpath.find(fd);
     if (it == g_fdpath.end() || g_in_hook) return r(fd, buf, len);
     op_point();
+    if (++g_writes == g_fail_once) { ev("write " + it->second + " 0/" + std::to_string(len) + " ENOSPC-once"); errno = ENOSPC; return -1; }
     size_t allowed; if (budgeted(fd, len, allowed) < 0) { ev("write " + it->second + " 0/" + std::to_string(len) + " ENOSPC"); return -1; }
     ssize_t n = r(fd, buf, allowed);
     ev("write " + it->second + " " + std::to_string(n) + "/" + std::to_string(len));
@@ -95,6 +97,7 @@ extern "C" ssize_t writev(int fd, const struct iovec* iov, int cnt) {
     for (int i = 0; i < cnt; i++) all.append(static_cast<const char*>(iov[i].iov_base), iov[i].iov_len);
     if (it == g_fdpath.end() || g_in_hook) return r(fd, all.data(), all.size());
     op_point();
+    if (++g_writes == g_fail_once) { ev("write " + it->second + " 0/" + std::to_string(all.size()) + " ENOSPC-once"); errno = ENOSPC; return -1; }
     size_t allowed; if (budgeted(fd, all.size(), allowed) < 0) { ev("write " + it->second + " 0/" + std::to_string(all.size()) + " ENOSPC"); return -1; }
     ssize_t n = r(fd, all.data(), allowed);
     ev("write " + it->second + " " + std::to_string(n) + "/" + std::to_string(all.size()));
@@ -158,6 +161,7 @@ int main() {
         try {
             if (t[0] == "CASE") { OUT("CASE %s", t.size() > 1 ? t[1].c_str() : ""); }
             else if (t[0] == "CRASHAT") { g_crash_at = atol(t[1].c_str()); OUT("ok"); }
+            else if (t[0] == "FAILONCE") { g_fail_once = atol(t[1].c_str()); OUT("ok"); }
             else if (t[0] == "PRE") {            // a file that exists before: PRE <relpath> <hex>
                 g_in_hook = true; { FILE* f = fopen((g_dir + "/" + t[1]).c_str(), "wb"); std::string s = unhex(t[2]); fwrite(s.data(), 1, s.size(), f); fclose(f); } g_in_hook = false; OUT("ok");
             }
@@ -208,6 +212,7 @@ int main() {
         }
         catch (std::exception& e) { OUT("throw %s", classify(e)); }
     }
-    g_w.reset(); g_x.reset();
-    return 0;
+    // objects that the script did not destroy are abandoned, not destroyed (the process simply ends)
+    fflush(stdout);
+    _exit(0);
 }
